@@ -8,6 +8,8 @@ CONSTANTS
   Res <- MCRes
   Bounds <- MCBounds
   Scopes <- MCScopes
+  SpanFlags <- MCSpanFlags
+  Mark = @MARK@
   MaxInst = @MAXINST@
   MaxRec = @MAXREC@
   MaxScr = @MAXSCR@
